@@ -491,7 +491,11 @@ func Check(d Driver, tier string, seed uint64, workers int, cfg TierCfg) int {
 		return 2
 	}
 	if len(total.HarnessErrs) > 0 {
-		for _, e := range total.HarnessErrs {
+		for i, e := range total.HarnessErrs {
+			if i >= 5 {
+				fmt.Fprintf(os.Stderr, "harness error: ... and %d more\n", len(total.HarnessErrs)-i)
+				break
+			}
 			fmt.Fprintf(os.Stderr, "harness error: %s\n", e)
 		}
 		return 2
